@@ -1,10 +1,42 @@
-(** C07 — Maintenance evicts exactly what Second Chance prescribes, on disk. (interim) *)
+(** C07 — Maintenance evicts exactly what Second Chance prescribes, on disk.
+
+    Kernel-checked, for ARBITRARY environment responses (every directory
+    population, every interference, every fault): if [prune dir cap] reports
+    success, the unlink calls it issued are — exactly and in order — the victims
+    that the planner computes from what prune itself observed (the listed,
+    non-dot, non-directory entries with the mtime and read mark stat returned,
+    in listing order).  C08 proves that this planner IS the classical Second
+    Chance clock for all inputs and capacities.  What a run of the real code
+    observes and does is tied to this model by vlib/c07.py (populations x
+    capacities, traces equal; the unlink order judged by the proved verdict). *)
 From Coq Require Import List NArith ZArith String Bool.
-From Kismet Require Import FS.Fs FS.Prog Ops.Ops Pure.SecondChance Proofs.SecondChanceProofs.
+From Kismet Require Import FS.Fs FS.Prog Ops.Ops Spec.Wp Pure.SecondChance Proofs.SecondChanceProofs Proofs.PruneExact Proofs.MaintScope.
 Import ListNotations.
-(** The candidates handed to the planner are tagged with their listing
-    position, so the plan's entries name listed files (C08's partition theorem
-    then says victims and reprieved entries are distinct listed files). *)
+
+Theorem C07_prune_evicts_exactly_the_plan : forall dir cap,
+  wp o_step (prune dir cap)
+     (fun r s' => match r with
+                  | Ok (est, nev) =>
+                      exists ev mb, plan (entries_of (o_obs s')) cap = Some (ev, mb) /\
+                        o_unl s' = map (fun e => dir ++ [name_at (o_obs s') e]) ev /\
+                        nev = N.of_nat (List.length ev)
+                  | _ => True
+                  end) o_init.
+Proof. exact prune_evicts_exactly_the_plan. Qed.
+
+(** ... hence on every sequential run, from every filesystem state and oracle. *)
+Theorem C07_on_every_run : forall dir cap w o,
+  let '(r, _, _, tr) := run (prune dir cap) w o in
+  exists s', mon_run o_step o_init tr = Some s' /\
+    match r with
+    | Ok (est, nev) =>
+        exists ev mb, plan (entries_of (o_obs s')) cap = Some (ev, mb) /\
+          o_unl s' = map (fun e => dir ++ [name_at (o_obs s') e]) ev /\ nev = N.of_nat (List.length ev)
+    | _ => True
+    end.
+Proof. intros. apply (wp_run o_step _ _ o_init w o (prune_evicts_exactly_the_plan dir cap)). Qed.
+
+(** The candidates handed to the planner are tagged with their listing position. *)
 Theorem C07_entries_tagged : forall files, map eid (entries_of files) = seq 0 (List.length files).
 Proof.
   intros files. unfold entries_of. rewrite map_map.
@@ -12,3 +44,15 @@ Proof.
   { induction l as [|f l IH]; intros s; cbn; [reflexivity|]. f_equal. apply IH. }
   apply H.
 Qed.
+
+(** Non-vacuity: three old entries, one of them read, capacity 2: one eviction, the oldest unread. *)
+Example C07_example :
+  let mk (f : fs) (name : string) (m a : Z) :=
+    let '(f1, i) := alloc_inode f (mkInode false [65%N] 292 m a 1 true) in
+    set_names f1 ((["w"%string; name], i) :: names f1) in
+  let '(f0, d) := alloc_inode empty_fs (mkInode true [] 493 0%Z 0%Z 2 true) in
+  let f0 := set_names f0 ((["w"%string], d) :: names f0) in
+  let w := mkWorld (mk (mk (mk f0 "a"%string 100 200) "b"%string 101 50) "c"%string 102 50)%Z 0 [] in
+  let '(r, _, _, tr) := run (prune ["w"%string] 2) w (mkOracle [1000; 1001]%Z [] [] [] [] None 0 1%Z Relatime) in
+  r = Ok (2%N, 1%N) /\ option_map o_unl (mon_run o_step o_init tr) = Some [["w"; "b"]%string].
+Proof. vm_compute. split; reflexivity. Qed.
